@@ -287,6 +287,8 @@ def r_item(item, phase, idx):
         v = r_program(item['p'])
         matcher = '  >= 0' if item['ch'] == 'exit-code' else '  ! equals "<never>"'
         return ['%s -from %s' % (item['ch'], v[0])] + v[1:] + [matcher]
+    if k == 'stop':
+        return ['$ false']
     if k == 'nexists':
         return ['exists ! ' + r_path(with_leaf(item['p'], use_name(phase, idx)))]
     raise ValueError(k)
